@@ -28,7 +28,13 @@ pub fn gen_proj(g: &mut Gen) -> Proj {
         names.into_iter().map(|n| { let nr = 1 + g.rng.below(2); (n, (0..nr).map(|_| RULES[g.rng.below(RULES.len())].to_string()).collect()) }).collect()
     }).collect();
     let nwf = 1 + g.rng.below(3);
-    let word_files: Vec<Vec<String>> = (0..nwf).map(|_| (0..1 + g.rng.below(4)).map(|_| g.small_word()).collect()).collect();
+    let mut word_files: Vec<Vec<String>> = (0..nwf).map(|_| (0..1 + g.rng.below(4)).map(|_| g.small_word()).collect()).collect();
+    // a lexicon may hold the same word twice in a row, and two neighbours may MERGE under the rules (pad / pat under final devoicing):
+    // every entry is a row of its own all the way through the stages
+    for f in word_files.iter_mut() {
+        if g.rng.chance(1, 3) { let i = g.rng.below(f.len()); let w = f[i].clone(); f.insert(i, w); }
+        if g.rng.chance(1, 3) { let (a, b) = [("pad", "pat"), ("tu", "to"), ("sak", "sax"), ("ten", "tin"), ("ka", "ke"), ("az", "ar")][g.rng.below(6)]; let i = g.rng.below(f.len() + 1); f.insert(i, b.to_string()); f.insert(i, a.to_string()); }
+    }
     let ntags = 1 + g.rng.below(5);
     let mut tags: Vec<Tag> = Vec::new();
     let root_alias = g.rng.chance(1, 4);
